@@ -97,6 +97,8 @@ def run(chk):
     chk.model("MC_Units Wide=%s" % p["wide"], t, "MulExact: reconstruct keeps products and quotients SI-exact, dimensionally additive, free of zero powers")
     observed, table = lang.observed_scales("c04-observed")
     rnd = random.Random(chk.seed + 4)
+    qt = lang.quantity_trees(chk, "c04-qty", k=2)
+    run_strings(chk, qt, "c04-qtrees", "exhaustive small trees over quantities", observed, chunk=1500)
     strings = generate(rnd, p["n"])
     res, recs = run_strings(chk, strings, "c04-mul", "products, quotients, powers", observed)
     chk.cov["decided_by_spec"] = res.decided
